@@ -157,7 +157,7 @@ PROPS = {
         "assumptions": RUN_ASSUME + ["engine-generated stage outputs in a returned output are not judged: whether they exist depends on the instant a step was closed"],
     },
     "C13": {
-        "test": "TestC13", "binary": "plain", "level": "exploration",
+        "test": "TestC13", "binary": "sched", "level": "exploration",
         "rule": "generated loops: item lists of length 0, 1-12 or 20-40, parallelism 1-8 (literal, from the workflow input, or the default), "
                 "sub-workflows of four shapes (single step, two-step chain, two declared outputs success/error, nested loop), per-item outcome "
                 "(success / crash / schema-violating output / declared error output) and duration (items finish out of order), items gated on the "
